@@ -449,6 +449,10 @@ def _sec1_cases(out, cv, bs, cls):
 
 def _gen_sec1(rng, T, out, pts):
     p = SECP["p"]
+    # X = x0 + p with the matching Y: on the curve modulo p, but the coordinate is not a field element
+    import c03
+    for e in c03.congruent_keys(4):
+        _sec1_cases(out, 0, e, "uncomp-x-congruent-mod-p")
     # valid encodings of real points, both forms, and their re-encodings
     for (x, y) in pts:
         for comp in (True, False):
